@@ -81,6 +81,12 @@ def _limits(mem_gb):
         lim = int(mem_gb * (1 << 30))
         resource.setrlimit(resource.RLIMIT_AS, (lim, lim))
         os.setsid()
+        try:
+            # die with the runner: if the check command itself is killed (e.g. by an outer time box) no solver is left behind
+            import ctypes
+            ctypes.CDLL("libc.so.6", use_errno=True).prctl(1, 9)      # PR_SET_PDEATHSIG, SIGKILL
+        except Exception:
+            pass
     return f
 
 
